@@ -1735,7 +1735,9 @@ class Compiler:
 
         self._slots.add(name)
 
-        orelse = template(
+        # The filler keeps track of its own position; the token of the
+        # expression evaluated last in this macro is not its call site.
+        orelse = template("__token = None") + template(
             "SLOT(__stream, econtext.copy(), rcontext)",
             SLOT=name)
         test = ast.Compare(
